@@ -6,7 +6,7 @@ a bounded session (connect, two sends, idle across a heartbeat period, one more 
 the virtual-time loop. First the fault-free session is run to learn its number of loop
 iterations N; then, for every event kind and every iteration k in 1..N, the session is
 re-run with that event injected by a tick hook exactly at iteration k; pairs of events
-(and a slow / lost DisconnectResponse) are sampled with Hypothesis, pairs at most 2 (thorough: 5)
+(and a slow / lost DisconnectResponse) are sampled with Hypothesis, pairs at most 2 (thorough: 12)
 iterations apart are enumerated. After the session the loop runs 300 more virtual seconds.
 
 Oracle (wire log + wrapped `_reconnect` + connection-manager callbacks in one total order):
@@ -41,7 +41,7 @@ RULE = (
     "case = (transport udp|tcp|secure, auto_reconnect, DisconnectResponse behaviour ok|0.5 s late|lost, [(event kind, loop iteration)]); event kinds: hb_drop, hb_err (next 4 ConnectionStateRequests unanswered / E_CONNECTION_ID), "
     "srv_disc_own / srv_disc_foreign (server DisconnectRequest), send_fail (a send started at that iteration, its ACKs dropped on UDP), transport_loss (TCP/secure), user_disc (user calls disconnect()), "
     "connect_drop / connect_err / open_refuse (next connect attempts fail); every kind at every iteration 1..N of the fault-free session (N learned by running it) for all 6 variants, "
-    "pairs of events sampled by Hypothesis (biased to adjacent iterations), all pairs of the instantaneous kinds <= 2 iterations apart enumerated (quick; thorough: all kinds, <= 5 apart, x 3 DisconnectResponse behaviours); ConnectionManager: op sequences report/register/unregister/self-unregistering callback vs a dedup model; "
+    "pairs of events sampled by Hypothesis (biased to adjacent iterations), all pairs of the instantaneous kinds <= 2 iterations apart enumerated (quick, plus loss x loss/user_disc pairs 3..12 apart; thorough: all kinds, <= 12 apart, x 3 DisconnectResponse behaviours); ConnectionManager: op sequences report/register/unregister/self-unregistering callback vs a dedup model; "
     "non-trivial = the injected event changed the wire log relative to the fault-free session (a fault really happened); distinct by case"
 )
 LEVEL_TEXT = "Each fault kind is injected at every loop iteration of a bounded tunnel session (UDP, TCP, IP Secure; auto-reconnect on/off) in virtual time, pairs of faults are sampled; reconnect concurrency, frames after a user disconnect and the reported connection state are decided from one totally ordered log of wire frames, callbacks and markers."
@@ -373,9 +373,12 @@ def execute(case):
 
         pending = list(events)
 
+        last_fire = [float("-inf")]
+
         def hook(tick: int) -> None:
             while pending and pending[0][0] <= tick:
                 _, _, kind = pending.pop(0)
+                last_fire[0] = loop.time()
                 fire(kind)
 
         loop.tick_hooks.append(hook)
@@ -397,10 +400,14 @@ def execute(case):
         obs["session_ticks"] = loop.tick
         gw.mark("session_end", "mark")
         await asyncio.sleep(TAIL)
-        # events scheduled beyond the end of this (shorter) run fire now, followed by another tail
-        if pending:
-            hook(10**9)
-            await asyncio.sleep(TAIL)
+        # every event is followed by TAIL quiet seconds; events scheduled beyond the end of this run fire now
+        while True:
+            if pending:
+                hook(10**9)
+            rest = last_fire[0] + TAIL - loop.time()
+            if rest <= 0 and not pending:
+                break
+            await asyncio.sleep(max(rest, 0.0) + 0.001)
         obs["final"] = {
             "state": cm.state.name,
             "connected_event": cm.connected.is_set(),
@@ -567,11 +574,11 @@ def _single_shard(ctx, transport: str, ar: bool, kind: str, lo: int, hi: int) ->
         ctx.sample({"transport": transport, "auto_reconnect": ar, "kind": kind, "ticks": f"1..{N}"})
 
 
-def _adjacent_shard(ctx, transport: str, ar: bool, ka: str, kb: str, dmax: int, dr) -> None:
+def _adjacent_shard(ctx, transport: str, ar: bool, ka: str, kb: str, dmax: int, dr, dmin: int = 0) -> None:
     N, dig = baseline(transport, ar)
     n = nt = 0
     for k in range(2, N + 1):
-        for d in range(0, dmax + 1):
+        for d in range(dmin, dmax + 1):
             if ka == kb and d == 0:
                 continue
             case = {"transport": transport, "auto_reconnect": ar, "disc_resp": dr, "events": [[ka, k], [kb, k + d]]}
@@ -704,11 +711,10 @@ def cm_check(ctx, case) -> None:
     except (BudgetExceeded, Deadlock):
         ctx.notes["inconclusive"] = ctx.notes.get("inconclusive", 0) + 1
         return
-    seen = set()
-    for key, detail in problems:
-        if key not in seen:
-            seen.add(key)
-            ctx.fail(f"C25:cm:{key}", case, detail)
+    if problems:
+        # lock-step model: after the first divergence the model is out of sync, only the first problem is a verdict
+        key, detail = problems[0]
+        ctx.fail(f"C25:cm:{key}", case, detail)
 
 
 _cm_op = st.one_of(
@@ -752,15 +758,19 @@ def run(ctx) -> None:
     ctx.notes["fault_free_session_iterations"] = ns
     near = INSTANT if ctx.quick else KINDS_ALL
     adj = [
-        (t, ar, ka, kb, ctx.n(2, 5), dr)
+        (t, ar, ka, kb, ctx.n(2, 12), dr)
         for t, ar in VARIANTS
         for ka in near
         for kb in near
         for dr in (["ok"] if ctx.quick else ["ok", ["delay", 0.5], "drop"])
         if ka in kinds_for(t) and kb in kinds_for(t)
     ]
+    if ctx.quick:
+        # second event inside / at the end of the reconnect started by the first one (a reconnect takes 4..12 iterations)
+        losses = ["srv_disc_own", "srv_disc_foreign", "transport_loss"]
+        adj += [(t, True, ka, kb, 12, "ok", 3) for t in ("udp", "tcp", "secure") for ka in losses for kb in [*losses, "user_disc"] if ka in kinds_for(t) and kb in kinds_for(t)]
     parallel(ctx, _adjacent_shard, adj)
-    ctx.notes["adjacent_pairs_enumerated"] = {"kinds": near, "max_iterations_apart": ctx.n(2, 5)}
+    ctx.notes["adjacent_pairs_enumerated"] = {"kinds": near, "max_iterations_apart": ctx.n(2, 12), "quick_also": "loss x loss/user_disc pairs 3..12 iterations apart with auto_reconnect"}
     parallel(ctx, _pair_shard, [(ctx.n(120, 3000),)] * 16)
     parallel(ctx, _cm_shard, [(ctx.n(300, 5000),)] * 4)
     ctx.exhaustive = False
